@@ -167,6 +167,15 @@ def adaptive(
     )
 
 
+def _exponential_cap(base_s: float, factor: float, attempt: int, max_s: float) -> float:
+    """min(max_s, base_s * factor**attempt) without overflowing for large attempts."""
+    try:
+        grown = base_s * (factor**attempt)
+    except OverflowError:
+        grown = math.inf if base_s > 0 else 0.0
+    return min(max_s, grown)
+
+
 def decorrelated_jitter(base_s: float = 0.25, max_s: float = 30.0) -> StrategyFn:
     """
     Decorrelated jitter backoff.
@@ -192,7 +201,7 @@ def equal_jitter(base_s: float = 0.25, max_s: float = 30.0) -> StrategyFn:
     """
 
     def f(attempt: int, klass: ErrorClass, prev_sleep: float | None) -> float:
-        cap = min(max_s, base_s * (2.0**attempt))
+        cap = _exponential_cap(base_s, 2.0, attempt, max_s)
         return cap / 2.0 + random.uniform(0.0, cap / 2.0)
 
     return f
@@ -207,7 +216,7 @@ def token_backoff(base_s: float = 0.25, max_s: float = 20.0) -> StrategyFn:
     """
 
     def f(attempt: int, klass: ErrorClass, prev_sleep: float | None) -> float:
-        cap = min(max_s, base_s * (1.5**attempt))
+        cap = _exponential_cap(base_s, 1.5, attempt, max_s)
         return random.uniform(cap / 2.0, cap)
 
     return f
